@@ -22,7 +22,7 @@ REPO = os.environ.get('VERIF_REPO', '/repo')
 class FunctionContract:
     def __init__(self, file, qualname, prop, setup=None, requires=(), ensures=(), raises=None, loops=None,
                  modifies=(), result_ty=None, spec_env=None, locals=None, axioms=None, note='', short=None,
-                 inline_loops=None, canary=None, params=None, allow_exc=(), region=None, spec_defs=None, spec_recs=(), ghost_at=None, lemmas=()):
+                 inline_loops=None, canary=None, params=None, allow_exc=(), region=None, spec_defs=None, spec_recs=(), ghost_at=None, lemmas=(), modular=True):
         self.file, self.qualname, self.prop = file, qualname, prop
         self.setup = setup
         self.requires, self.ensures = list(requires), list(ensures)
@@ -43,6 +43,7 @@ class FunctionContract:
         self.spec_recs = list(spec_recs)
         self.ghost_at = ghost_at or {}
         self.lemmas = list(lemmas)
+        self.modular = modular     # False: callers inline the body instead of using this contract
 
     @property
     def name(self):
@@ -157,6 +158,32 @@ def find_function(tree, qualname):
     return node
 
 
+def _norm(src):
+    return ' '.join(src.split())
+
+
+def select_region(body, region):
+    """contiguous top-level statements of the function body, located by the source text of the first statement
+    (and optionally of the first statement after the region) -- never by line number."""
+    start, end = region.get('start'), region.get('end')
+    i0 = None
+    for i, st in enumerate(body):
+        if _norm(ast.unparse(st)).startswith(_norm(start)):
+            i0 = i
+            break
+    if i0 is None:
+        raise EngineError('region anchor not found: %r' % start)
+    i1 = len(body)
+    if end:
+        for j in range(i0 + 1, len(body)):
+            if _norm(ast.unparse(body[j])).startswith(_norm(end)):
+                i1 = j
+                break
+        else:
+            raise EngineError('region end anchor not found: %r' % end)
+    return body[i0:i1]
+
+
 def strip_docstring(fn):
     body = fn.body
     if body and isinstance(body[0], ast.Expr) and isinstance(body[0].value, ast.Constant) and \
@@ -227,7 +254,7 @@ def build_engine(contract, all_contracts, timeout_ms=10000, mutate=None):
     if node is None:
         raise EngineError('anchor not found: %s in %s' % (contract.qualname, contract.file))
     for c in all_contracts:
-        if c is not contract and c.file == contract.file:
+        if c is not contract and c.file == contract.file and c.modular:
             eng.contracts[c.qualname] = c
     return eng, menv, node, src
 
@@ -244,6 +271,8 @@ def verify(contract, all_contracts=(), timeout_ms=10000, mutate=None, negate_pos
         eng.local_types = dict(contract.locals)
         eng.inline_specs = dict(contract.inline_loops)
         body = strip_docstring(node)
+        if contract.region:
+            body = select_region(body, contract.region)
         gen = is_generator(node)
         owner = None
         parts = contract.qualname.split('.')
@@ -273,6 +302,7 @@ def verify(contract, all_contracts=(), timeout_ms=10000, mutate=None, negate_pos
                 spec_globals.vars[sn] = eng.eval_spec(ssrc, spec_globals)
             define_recs(eng, contract.spec_recs, spec_globals)
             env = Env(spec_globals, dict(args))
+            eng.spec_fallback = spec_globals
             env.vars['__locals__'] = assigned_names(body)
             old_env = Env(spec_globals, {k: eng.snapshot(v) for k, v in args.items()})
             env.vars['__old_env__'] = old_env
@@ -483,7 +513,7 @@ class Cx:
             k = self.menv.lookup(cls)
             if isinstance(k, ClassV):
                 o.__dict__['klass'] = k
-        except KeyError:
+        except (KeyError, EngineError):
             pass
         return o
 
